@@ -62,7 +62,7 @@ NodeOK(ln) ==
       [] ln.ev = "R_BlockTime" -> a.ok = ~Fails("rtime")
       [] OTHER -> TRUE
 
-IsEnv(ln) == ln.ev \in {"NewHead", "Mine", "Reorg", "Remine", "DropReceipt", "FailTx", "Arm"}
+IsEnv(ln) == ln.ev \in {"NewHead", "Mine", "Reorg", "Remine", "DropReceipt", "FailTx", "Arm", "Disarm"}
 
 \* ---- a scan's receipt lookup: any deep, not yet looked-up entry of that transaction
 Cands(tx) == {e \in pending : e.tx = tx /\ Key(e) \notin hs.seen /\ Deep(e, hs.h)}
@@ -91,6 +91,7 @@ Apply(ln) ==
       [] ln.ev = "DropReceipt" -> E_Drop(a.tx)
       [] ln.ev = "FailTx"      -> E_Fail(a.tx)
       [] ln.ev = "Arm"         -> E_Arm(a.kind)
+      [] ln.ev = "Disarm"      -> E_Disarm(a.kind)
       [] ln.ev = "PushLog"     -> PushLog(a.tx, a.i, a.delivered)
       [] ln.ev = "L_BlockTime" -> L_BlockTime(Blk(a.blk))
       [] ln.ev = "L_Insert"    -> L_Insert
